@@ -167,4 +167,15 @@ def observe (f : Forest) : List Id × List Id × List CrateObs :=
    (f.crates.mergeSort (fun a b => a.id ≤ b.id)).map fun c =>
      ⟨c.id, c.name, c.parent, sortIds (f.children c.id), sortIds (f.descendants c.id)⟩)
 
+/-- The forest after a call with verdict `v` that succeeded (`true`) or threw (`false`);
+`none` when the outcome contradicts the verdict. -/
+def Verdict.next (v : Verdict) (f : Forest) (succeeded : Bool) : Option Forest :=
+  match v, succeeded with
+  | .accept f', true => some f'
+  | .accept _, false => none
+  | .reject, true => none
+  | .reject, false => some f
+  | .either f', true => some f'
+  | .either _, false => some f
+
 end EngineModel.Spec.Forest
